@@ -3,8 +3,9 @@
    All theorems are unbounded: any data set (list of weighted rows), any cardinalities, any parent list.
    Conventions: [a : asg] is a NAMED assignment variable -> state; [named_get d card ps T x a] reads a table
    laid out for the parent order ps at child state x and the parents' states under a. *)
-From Coq Require Import List Bool Arith PeanoNat ZArith QArith Qcanon Permutation.
+From Coq Require Import List Bool Arith PeanoNat ZArith QArith Qcanon Permutation Reals.
 From PV Require Import Base.Ravel C06.Model C06.Spec C06.Proofs C06.ProofsEst C06.ProofsEM C06.ProofsInv.
+From PV Require Import C06.EMReal C06.EMInst.
 Import ListNotations.
 Open Scope Qc_scope.
 
@@ -181,19 +182,15 @@ Theorem C06_em_no_latent_is_mle : forall card cols rows cpds clamp child gp, 0 <
 Proof. exact em_no_latent_is_mle. Qed.
 Print Assumptions C06_em_no_latent_is_mle.
 
-(* C06_em_monotone, FULL STATEMENT (not proved here):
-     forall card cols rows lats cpds clamp, valid network cpds ->
-       loglik (cpds after one EM iteration) >= loglik cpds
-   where loglik theta = sum over rows of ln (sum over latent completions c of prod of CPD values at (row, c)).
-   This is a statement over the reals (ln; Gibbs' inequality / Jensen: the M-step maximises the expected
-   complete-data log-likelihood, KL >= 0); the model is over exact rationals and Coq's Reals would bring the
-   classical axioms in.  Out of scope for the proof; harness/c06.py checks it on pgmpy run by run as a TEST
-   (likelihood after max_iter = 1, 2, 3 with the same init/seed is non-decreasing).  Note also that pgmpy's
-   1e-10 floor makes the statement false in principle for CPD entries below 1e-10.
-   What IS proved, exactly: the E-step is a posterior -- for every distinct data row the weights given to its
-   latent completions sum to the row's multiplicity (mass is neither created nor lost), the weights being
-   likelihood(row, c) / sum_c' likelihood(row, c') -- and the M-step is the weighted MLE (by definition of
-   m_step), to which C06_mle_closed_form / C06_columns_normalised apply. *)
+(* EM ascent ("never decreases the observed-data likelihood") is a statement over the reals (ln, Gibbs'
+   inequality).  It is proved below: C06_em_monotone_abstract (any finite discrete model, EMReal.v) and
+   C06_em_monotone_model (Model.v's e_step + m_step, embedded with Q2R, as an instance, EMInst.v), both depending
+   only on the standard library's axioms of the real numbers.  pgmpy's 1e-10 floor is OUTSIDE these theorems (the
+   model theorem assumes it inactive); harness/c06.py additionally checks ascent on pgmpy run by run as a TEST.
+   The purely rational fact first: the E-step is a posterior -- for every distinct data row the weights given to
+   its latent completions sum to the row's multiplicity (mass is neither created nor lost), the weights being
+   likelihood(row, c) / sum_c' likelihood(row, c'), floor included -- and the M-step is the weighted MLE (by
+   definition of m_step), to which C06_mle_closed_form / C06_columns_normalised apply. *)
 Theorem C06_em_monotone_partial : forall card cols rows lats cpds clamp u, 0 < clamp ->
   let lc := completions (map card lats) in
   let lik := fun c => joint_clamped card cpds clamp (val (cols ++ lats) (u ++ c)) in
@@ -202,6 +199,99 @@ Theorem C06_em_monotone_partial : forall card cols rows lats cpds clamp u, 0 < c
   = Qc_of_nat (count_occ rows_dec rows u).
 Proof. exact e_step_row_mass. Qed.
 Print Assumptions C06_em_monotone_partial.
+
+(* ---- EM ascent over the real numbers --------------------------------------------------------------- *)
+(* Abstract finite model (see the header of EMReal.v): groups g (node, parent configuration) with cells k
+   (states), parameter th g k, complete configurations c using cell (g,k) [n g k c] times,
+   cprob th c = prod th g k ^ n g k c; observed rows xs with multiplicities m and completions cs x;
+   loglik th = sum_x m x * ln (sum_{c in cs x} cprob th c); resp = posterior of a completion (E-step);
+   ecount = expected cell counts; [em_update th th'] = th' is ecount normalised per group wherever the group's
+   expected total is positive (anything non-negative elsewhere).  Hypotheses: positive multiplicities, th
+   non-negative with every group summing to at most 1 ([sub_distr]; zeros allowed), every observed row
+   possible under th ([observable]).  Conclusion: the rows stay possible and the likelihood does not decrease. *)
+Theorem C06_em_monotone_abstract :
+  forall (X C G K : Type) (xs : list X) (m : X -> R) (cs : X -> list C) (gs : list G) (ks : G -> list K)
+         (n : G -> K -> C -> nat) (th th' : G -> K -> R),
+  (forall x, In x xs -> (0 < m x)%R) ->
+  sub_distr G K gs ks th ->
+  observable X C G K xs cs gs ks n th ->
+  em_update X C G K xs m cs gs ks n th th' ->
+  observable X C G K xs cs gs ks n th' /\
+  (loglik X C G K xs m cs gs ks n th <= loglik X C G K xs m cs gs ks n th')%R.
+Proof. exact em_ascent. Qed.
+Print Assumptions C06_em_monotone_abstract.
+
+(* any number of iterations of the textbook step [em_next] (zero-total groups unchanged): every iterate is again
+   a distribution under which the data are possible, and each is at least as likely as its predecessor *)
+Theorem C06_em_iterates_monotone_abstract :
+  forall (X C G K : Type) (xs : list X) (m : X -> R) (cs : X -> list C) (gs : list G) (ks : G -> list K)
+         (n : G -> K -> C -> nat) (th : G -> K -> R),
+  (forall x, In x xs -> (0 < m x)%R) ->
+  is_distr G K gs ks th ->
+  observable X C G K xs cs gs ks n th ->
+  forall i,
+    is_distr G K gs ks (em_iter X C G K xs m cs gs ks n i th) /\
+    observable X C G K xs cs gs ks n (em_iter X C G K xs m cs gs ks n i th) /\
+    (loglik X C G K xs m cs gs ks n (em_iter X C G K xs m cs gs ks n i th)
+     <= loglik X C G K xs m cs gs ks n (em_iter X C G K xs m cs gs ks n (S i) th))%R.
+Proof. exact em_iter_ascent. Qed.
+Print Assumptions C06_em_iterates_monotone_abstract.
+
+(* The model is an instance (EMInst.v: rows = data rows, completions u ++ c, group = (CPD, column), cell = child
+   state, th = Q2R of the table entries).  (1) every weight the E-step writes into the expanded frame is
+   multiplicity * responsibility; *)
+Theorem C06_em_estep_weights_are_posterior : forall card cols rows lats cpds clamp,
+  0 < clamp -> completions (map card lats) <> [] ->
+  (forall u c cp, In u rows -> In c (completions (map card lats)) -> In cp cpds ->
+     in_states card (c_var cp :: c_parents cp) (val (cols ++ lats) (u ++ c))) ->
+  (forall u c cp, In u rows -> In c (completions (map card lats)) -> In cp cpds ->
+     clamp <= cpd_value card cp (val (cols ++ lats) (u ++ c))) ->
+  forall rw, In rw (e_step card cols rows lats cpds clamp) ->
+  exists u c, In u rows /\ In c (completions (map card lats)) /\ fst rw = u ++ c /\
+    QcR (snd rw) = (INR (count_occ rows_dec rows u) *
+                    resp (list nat) (list nat) (cpd * nat) nat (csI card lats) (gsI card cpds) (ksI card)
+                         (nI card cols lats) thI u (u ++ c))%R.
+Proof. exact ex_weight_R. Qed.
+Print Assumptions C06_em_estep_weights_are_posterior.
+
+(* (2) the tables of the M-step (read at the same named parent configuration) are the normalised expected counts,
+   i.e. an M-step output in the sense of the abstract theorem *)
+Theorem C06_em_mstep_is_normalised_expected_counts : forall card cols rows lats cpds clamp,
+  0 < clamp -> completions (map card lats) <> [] ->
+  (forall u c cp, In u rows -> In c (completions (map card lats)) -> In cp cpds ->
+     in_states card (c_var cp :: c_parents cp) (val (cols ++ lats) (u ++ c))) ->
+  (forall u c cp, In u rows -> In c (completions (map card lats)) -> In cp cpds ->
+     clamp <= cpd_value card cp (val (cols ++ lats) (u ++ c))) ->
+  (forall cp, In cp cpds -> NoDup (c_parents cp)) ->
+  (forall cp, In cp cpds -> (0 < card (c_var cp))%nat) ->
+  em_update (list nat) (list nat) (cpd * nat) nat rows (fun _ => 1%R) (csI card lats) (gsI card cpds) (ksI card)
+            (nI card cols lats) thI (thN card cols rows lats cpds clamp).
+Proof. exact mstep_is_update. Qed.
+Print Assumptions C06_em_mstep_is_normalised_expected_counts.
+
+(* (3) hence one iteration of the model never decreases the observed-data log-likelihood
+     loglikR cpds = sum over the data rows of ln (Q2R (sum over latent completions of the product of CPD values)),
+   [em_step] = the CPDs pgmpy builds from the M-step tables.  Side conditions: data rows pass the model's guard
+   [row_ok], every CPD's family lies in columns ++ latents, has distinct parents and distribution columns, at
+   least one latent completion exists, and the floor is INACTIVE on the data (clamp <= every CPD value met). *)
+Theorem C06_em_monotone_model : forall card cols rows lats cpds clamp,
+  0 < clamp ->
+  completions (map card lats) <> [] ->
+  (forall u, In u rows -> row_ok card cols u = true) ->
+  (forall cp, In cp cpds -> fam_in_cols (cols ++ lats) (c_var cp :: c_parents cp) = true) ->
+  (forall u c cp, In u rows -> In c (completions (map card lats)) -> In cp cpds ->
+     clamp <= cpd_value card cp (val (cols ++ lats) (u ++ c))) ->
+  (forall cp, In cp cpds -> NoDup (c_parents cp)) ->
+  (forall cp, In cp cpds -> (0 < card (c_var cp))%nat) ->
+  (forall cp j, In cp cpds -> (j < prod (map card (c_parents cp)))%nat ->
+     (forall k, (k < card (c_var cp))%nat -> 0 <= tget 0 (c_table cp) k j) /\
+     sumQ (map (fun k => tget 0 (c_table cp) k j) (seq 0 (card (c_var cp)))) = 1) ->
+  (forall u, In u rows -> (0 < QcR (row_lik card cols lats (em_step card cols rows lats cpds clamp) u))%R) /\
+  (loglikR card cols rows lats cpds <= loglikR card cols rows lats (em_step card cols rows lats cpds clamp))%R.
+Proof. exact em_model_ascent_frame. Qed.
+Print Assumptions C06_em_monotone_model.
+(* non-vacuity: EMReal.ex_tiny_hyps / ex_tiny_ascent (abstract) and EMInst.exm_step_value / exm_ascent (model:
+   one latent and one observed binary variable; the likelihood goes from 45/512 to 4/27). *)
 
 (* ---- non-vacuity: a concrete frame meeting the hypotheses (the D4 data, A's parents listed as [C; B]) ---- *)
 Example ex_hyps :
